@@ -73,6 +73,10 @@ type Op struct {
 	Max  gen.F  `json:"max,omitempty"`
 	Sel2 int    `json:"sel2,omitempty"`
 	Buf  int    `json:"buf,omitempty"` // 0 nil | n: fresh caller buffer of capacity n-1
+	// Spread (knn with a limit): every caller — the solo runs and all goroutines — passes the limit
+	// as `lims...` from ONE caller-owned slice shared by all of them (class L4).
+	Spread bool `json:"spread,omitempty"`
+	// build op "bulk": N pointers of pattern Tgt (grid | coincident) (class L1)
 }
 
 // Ref is one query issued by a goroutine: pool index, whether the goroutine
@@ -198,6 +202,22 @@ func build(c Case) *built {
 			if bt.q.Add(it) == nil {
 				bt.refresh()
 			}
+		case "bulk":
+			side := 1
+			for side*side < op.N {
+				side++
+			}
+			w, h := bt.b.Max[0]-bt.b.Min[0], bt.b.Max[1]-bt.b.Min[1]
+			for i := 0; i < op.N; i++ {
+				p := op.P.Pt()
+				if op.Tgt != "coincident" {
+					p = orb.Point{bt.b.Min[0] + w*float64(i%side)/float64(side), bt.b.Min[1] + h*float64(i/side)/float64(side)}
+				}
+				it := &item{id: len(bt.created), p: p}
+				bt.created = append(bt.created, it)
+				_ = bt.q.Add(it)
+			}
+			bt.refresh()
 		case "rm":
 			if len(bt.stored) == 0 {
 				// removal on an empty (possibly never-populated) tree
@@ -230,6 +250,10 @@ type query struct {
 	maxD   float64
 	buf    int
 	box    orb.Bound
+	// lims: the caller-owned limit slice (len 1, cap 2, a window of limBack) that every
+	// caller of this pool query shares when the query is in spread mode
+	lims    []float64
+	limBack []float64
 }
 
 func d2(a, b orb.Point) float64 {
@@ -264,6 +288,10 @@ func resolve(bt *built, op Op) query {
 					qu.maxD = d
 				}
 			}
+		}
+		if qu.hasMax && op.Spread {
+			qu.limBack = []float64{7.5, qu.maxD, -3.25, 1e300}
+			qu.lims = qu.limBack[1:2:3]
 		}
 	case "inb":
 		switch op.Tgt {
@@ -322,6 +350,9 @@ func run(q *quadtree.Quadtree, qu *query, reuse []orb.Pointer) answer {
 		var md []float64
 		if qu.hasMax {
 			md = []float64{qu.maxD}
+			if qu.lims != nil {
+				md = qu.lims // shared, never rewritten by any caller
+			}
 		}
 		if qu.f == "" {
 			res = q.KNearest(buf, qu.qp, qu.k, md...)
@@ -363,6 +394,25 @@ func sameMultiset(a, b answer) bool {
 	sort.Slice(x, func(i, j int) bool { return x[i] < x[j] })
 	sort.Slice(y, func(i, j int) bool { return y[i] < y[j] })
 	return equalAns(x, y)
+}
+
+// limitsIntact: C19's statement says no query writes to memory another query
+// reads; the shared limit slices are read by every caller of their query, so a
+// write into them (or into their backing array) is a violation by itself.
+func limitsIntact(pool []query, when string) error {
+	for i := range pool {
+		qu := &pool[i]
+		if qu.lims == nil {
+			continue
+		}
+		want := []float64{7.5, qu.maxD, -3.25, 1e300}
+		for j := range want {
+			if math.Float64bits(qu.limBack[j]) != math.Float64bits(want[j]) {
+				return fmt.Errorf("pool query %d (%+v): element %d of the caller-owned maxDistance slice shared by all callers was %v and is %v %s: a read-only query wrote to memory other queries read", i, *qu, j-1, want[j], qu.limBack[j], when)
+			}
+		}
+	}
+	return nil
 }
 
 // ---------------------------------------------------------------- snapshot
@@ -468,6 +518,9 @@ func runCase(c Case) (info, error) {
 		own := make([]orb.Pointer, 32)
 		for i := range pool {
 			alone[i] = run(bt.q, &pool[i], nil)
+			if err := limitsIntact(pool[i:i+1], "after the query ran once, alone"); err != nil {
+				return err
+			}
 			again := run(bt.q, &pool[i], own)
 			ordered[i] = equalAns(alone[i], again)
 			if !ordered[i] {
@@ -562,6 +615,9 @@ func runCase(c Case) (info, error) {
 		if p != "" {
 			return in, fmt.Errorf("goroutine %d of %d panicked during a read-only query: %s", g, G, p)
 		}
+	}
+	if err := limitsIntact(pool, fmt.Sprintf("after %d goroutines ran read-only queries", G)); err != nil {
+		return in, err
 	}
 	if err := before.diff(snap(bt, false), fmt.Sprintf("while %d goroutines ran read-only queries", G)); err != nil {
 		return in, err
@@ -764,6 +820,7 @@ func genQuery(t *rapid.T, f frame) Op {
 			w := f.max[0] - f.min[0]
 			op.Max = gen.F(w * float64(rapid.IntRange(0, 16).Draw(t, "mi")) / 8)
 			op.Sel2 = rapid.IntRange(0, 1<<16).Draw(t, "sel2")
+			op.Spread = rapid.Bool().Draw(t, "spread")
 		}
 		if rapid.Bool().Draw(t, "buf") {
 			op.Buf = rapid.IntRange(1, 12).Draw(t, "bufn")
@@ -916,6 +973,8 @@ func TestEnumFixedScenarios(t *testing.T) {
 		{K: "knn", P: gen.P{4, 4}, N: 0},
 		{K: "knn", P: gen.P{4, 4}, N: 3},
 		{K: "knn", P: gen.P{1, 6}, N: 5, F: "even", MaxK: "abs", Max: 4, Buf: 9},
+		{K: "knn", P: gen.P{5, 2}, N: 7, MaxK: "abs", Max: 3, Spread: true},
+		{K: "knn", P: gen.P{2, 2}, N: 3, MaxK: "abs", Max: 2.5, Spread: true, F: "reodd"},
 		{K: "knn", P: gen.P{1, 6}, N: 2, NRel: true},
 		{K: "inb", Tgt: "tree"},
 		{K: "inb", P: gen.P{2, 2}, P2: gen.P{6, 6}, F: "odd", Buf: 4},
@@ -963,7 +1022,7 @@ func TestEnumFixedScenarios(t *testing.T) {
 			}
 		}
 	}
-	stats.Subspace("5 fixed trees (never populated, removal on never populated, grown, pulled-up, emptied) x {2, 8, 32 (concurrent first), 4, 16 (sequential first)} goroutines x 480 queries each", size, true)
+	stats.Subspace("5 fixed trees (never populated, removal on never populated, grown, pulled-up, emptied) x {2, 8, 32 (concurrent first), 4, 16 (sequential first)} goroutines x 560 queries each", size, true)
 }
 
 func TestReplay(t *testing.T) {
